@@ -795,6 +795,7 @@ theorem ArriveQ.env (s : Sys) (e : EnvOp) (inv : ArriveQ s []) (hi : HistInv s.h
   | accrue v d amt => exact mk _ rfl rfl rfl rfl (Nat.le_refl _)
   | blockRedelegation v on => exact mk _ rfl rfl rfl rfl (Nat.le_refl _)
   | blockUndelegation v on => exact mk _ rfl rfl rfl rfl (Nat.le_refl _)
+  | setInactive v on => exact mk _ rfl rfl rfl rfl (Nat.le_refl _)
   | oracle ok p => exact mk _ rfl rfl rfl rfl (Nat.le_refl _)
   | swap ok p => exact mk _ rfl rfl rfl rfl (Nat.le_refl _)
   | donate a d amt =>
